@@ -426,6 +426,7 @@ where
     fn call_first(&self, cx: &mut task::Context<'_> $(, $args: $args)*) -> Poll<Result<$ret_ty>> {
         let vm = self.value.vm();
         let mut context = vm.current_context();
+        let level = context.stack().get_frames().len();
         context.push(self.value.get_variant());
         $(
             $args.vm_push(&mut context)?;
@@ -434,7 +435,8 @@ where
             0.vm_push(&mut context).unwrap();
         }
         let args = count!($($args),*) + <$ret_ty as VmType>::EXTRA_ARGS;
-        let context =  ready!(vm.call_function(cx, context.into_owned(), args))?;
+        let context = ready!(vm.call_function(cx, context.into_owned(), args))
+            .map_err(|err| crate::thread::reset_after_error(vm, level, err))?;
         let mut context = context.unwrap();
         let result = {
             let value = context.stack.last().unwrap();
@@ -538,6 +540,7 @@ where
     {
         let vm = self.value.vm();
         let mut context = vm.current_context();
+        let level = context.stack().get_frames().len();
         context.push(self.value.get_variant());
 
         let mut arg_count = R::EXTRA_ARGS;
@@ -548,7 +551,8 @@ where
         for _ in 0..R::EXTRA_ARGS {
             0.vm_push(&mut context).unwrap();
         }
-        let context = ready!(vm.call_function(cx, context.into_owned(), arg_count))?;
+        let context = ready!(vm.call_function(cx, context.into_owned(), arg_count))
+            .map_err(|err| crate::thread::reset_after_error(vm, level, err))?;
         let mut context = context.unwrap();
         let result = {
             let value = context.stack.last().unwrap();
